@@ -37,6 +37,17 @@ def setup(ctx):
     sample = probe._build_skip_grams(seqs)[0]
     dt = {f: getattr(sample, f).dtype for f in ("row", "col", "val", "key", "ind", "min", "depth")}
     _state["dtypes"] = dt
+    empty = numba.typed.List.empty_list(numba.int32[::1]) if not ctx.interp else []
+
+    def alloc(cap):
+        """A fresh accumulator allocated by the real kernel of the tree under test (dtypes, run-stack length)."""
+        probe._coo_sizes = np.array([cap], dtype=np.int64)
+        coo = probe._build_skip_grams(empty)[0]
+        for f in ("row", "col", "val", "key", "ind", "min", "depth"):
+            getattr(coo, f)[...] = 0
+        return coo
+
+    _state["alloc"] = alloc
     if ctx.interp:
         # count which compaction paths run (interp: module globals are looked up at call time)
         pr = _state["probes"]
@@ -60,19 +71,8 @@ def setup(ctx):
         coo_sum_duplicates = cu.coo_sum_duplicates
         merge_all_sum_duplicates = cu.merge_all_sum_duplicates
 
-        d_row, d_col, d_val, d_key, d_ind, d_min, d_depth = (dt[f] for f in ("row", "col", "val", "key", "ind", "min", "depth"))
-
         @numba.njit(nogil=True)
-        def drive(rows, cols, vals, keys, cap, check_every):
-            coo = CooArray(
-                np.zeros(cap, dtype=d_row),
-                np.zeros(cap, dtype=d_col),
-                np.zeros(cap, dtype=d_val),
-                np.zeros(cap, dtype=d_key),
-                np.zeros(1, dtype=d_ind),
-                np.zeros(2 * np.int64(np.ceil(np.log2(cap))), dtype=d_min),
-                np.zeros(1, dtype=d_depth),
-            )
+        def drive(coo, rows, cols, vals, keys, check_every):
             total = 0.0
             grown = 0
             maxdepth = 0
@@ -99,7 +99,7 @@ def setup(ctx):
         _state["drive"] = drive
         # warm-up compile (outside any tracing)
         z = np.zeros(3, dtype=np.int64)
-        drive(z.astype(np.int32), z.astype(np.int32), np.ones(3, dtype=np.float32), z, 64, 1)
+        drive(alloc(64), z.astype(np.int32), z.astype(np.int32), np.ones(3, dtype=np.float32), z, 1)
 
 
 def _capacity(tape, limit, desc):
@@ -268,16 +268,7 @@ def run(tape, ctx):
         _state["probes"].clear()
         _state["maxdepth"] = 0
         try:
-            dt = _state["dtypes"]
-            coo = cu.CooArray(
-                np.zeros(cap, dtype=dt["row"]),
-                np.zeros(cap, dtype=dt["col"]),
-                np.zeros(cap, dtype=dt["val"]),
-                np.zeros(cap, dtype=dt["key"]),
-                np.zeros(1, dtype=dt["ind"]),
-                np.zeros(2 * np.int64(np.ceil(np.log2(cap))), dtype=dt["min"]),
-                np.zeros(1, dtype=dt["depth"]),
-            )
+            coo = _state["alloc"](cap)
         except Exception as e:
             raise Violation(f"C04|L1|alloc-exception:{type(e).__name__}", f"cap={cap}: {e!r}", desc)
         total = 0.0
@@ -323,7 +314,7 @@ def run(tape, ctx):
     else:
         check_every = tape.choice("l1.check_every", [1, 3, 17, 64, 0]) if n <= 5000 else tape.choice("l1.check_every", [64, 1009, 0])
         try:
-            coo, at, code, grown, md = _state["drive"](rows, cols, vals, keys, cap, check_every)
+            coo, at, code, grown, md = _state["drive"](_state["alloc"](cap), rows, cols, vals, keys, check_every)
         except Exception as e:
             raise Violation(f"C04|L1|exception:{type(e).__name__}|jit", f"{e!r}", desc)
         if grown:
